@@ -90,23 +90,16 @@ theorem pairCall_keys (cfg s t r A B a b) (k : Key) (x : Val)
   split at h
   · split at h
     · exact .inl h
-    · split at h
-      · split at h <;> exact .inl h
-      · simp only [upd_apply] at h
-        split at h
-        · next e => exact .inr (by rw [e])
-        · exact .inl h
+    · simp only [upd_apply] at h
+      split at h
+      · next e => exact .inr (by rw [e])
+      · exact .inl h
   · simp only at h
     split at h
-    · split at h
-      · simp only [crash_cache, upd_apply] at h
-        split at h
-        · next e => exact .inr (by rw [e])
-        · exact .inl h
-      · simp only [upd_apply] at h
-        split at h
-        · next e => exact .inr (by rw [e])
-        · exact .inl h
+    · simp only [upd_apply] at h
+      split at h
+      · next e => exact .inr (by rw [e])
+      · exact .inl h
     · simp only [upd_apply] at h
       split at h
       · next e => exact .inr (by rw [e])
@@ -124,41 +117,29 @@ theorem pairCall_chain {cfg : Cfg} {s : State} (hc : ChainInv cfg s.cache) (t r 
 theorem pairCall_wip (cfg s t r A B a b) : (pairCall cfg s t r A B a b).wip = s.wip := by
   unfold pairCall
   split
-  · split
-    · rfl
-    · split
-      · split <;> rfl
-      · rfl
-  · simp only; split
-    · split <;> rfl
-    · rfl
+  · split <;> rfl
+  · simp only; split <;> rfl
 
 theorem pairCall_pend (cfg s t r A B a b) : (pairCall cfg s t r A B a b).pend = s.pend := by
   unfold pairCall
   split
-  · split
-    · rfl
-    · split
-      · split <;> rfl
-      · rfl
-  · simp only; split
-    · split <;> rfl
-    · rfl
+  · split <;> rfl
+  · simp only; split <;> rfl
 
 theorem pairCall_npend (cfg s t r A B a b) : (pairCall cfg s t r A B a b).npend = s.npend := by
   unfold pairCall
   split
-  · split
-    · rfl
-    · split
-      · split <;> rfl
-      · rfl
-  · simp only; split
-    · split <;> rfl
-    · rfl
+  · split <;> rfl
+  · simp only; split <;> rfl
 
-/-- the thread either continues where it was or is dead; exactly one event is recorded, and a
-successful pair is what the cache holds afterwards -/
+/-- `StoreOrLoadPair` never touches the stacks (it cannot panic) -/
+theorem pairCall_thr (cfg s t r A B a b) : (pairCall cfg s t r A B a b).thr = s.thr := by
+  unfold pairCall
+  split
+  · split <;> rfl
+  · simp only; split <;> rfl
+
+/-- exactly one event is recorded, and the returned pair is what the cache holds afterwards -/
 theorem pairCall_thr_hist (cfg s t r A B a b) :
     ∃ res, (pairCall cfg s t r A B a b).hist = .pair t r A B a b res :: s.hist ∧
       ((pairCall cfg s t r A B a b).thr = s.thr ∨ (pairCall cfg s t r A B a b).thr = upd s.thr t [.dead]) ∧
@@ -170,32 +151,26 @@ theorem pairCall_thr_hist (cfg s t r A B a b) :
   split
   · next va hA =>
     split
-    · exact ⟨none, rfl, .inr rfl, by intro a' b' h; cases h⟩
-    · split
-      · next vb hB =>
-        split
-        · exact ⟨none, rfl, .inr rfl, by intro a' b' h; cases h⟩
-        · exact ⟨some (va, vb), rfl, .inl rfl, by intro a' b' h; cases h; exact ⟨rfl, hA, hB⟩⟩
-      · next hB =>
-        refine ⟨some (va, b), rfl, .inl rfl, ?_⟩
-        intro a' b' h; cases h
-        refine ⟨rfl, ?_, by simp⟩
-        simp only [upd_apply]
-        split
-        · next e => rw [e] at hA; rw [hB] at hA; cases hA
-        · exact hA
+    · next vb hB =>
+      exact ⟨some (va, vb), rfl, .inl rfl, by intro a' b' h; cases h; exact ⟨rfl, hA, hB⟩⟩
+    · next hB =>
+      refine ⟨some (va, b), rfl, .inl rfl, ?_⟩
+      intro a' b' h; cases h
+      refine ⟨rfl, ?_, by simp⟩
+      simp only [upd_apply]
+      split
+      · next e => rw [e] at hA; rw [hB] at hA; cases hA
+      · exact hA
   · next hA =>
     simp only
     split
     · next vb hB =>
-      split
-      · exact ⟨none, rfl, .inr rfl, by intro a' b' h; cases h⟩
-      · refine ⟨some (a, vb), rfl, .inl rfl, ?_⟩
-        intro a' b' h; cases h
-        refine ⟨rfl, ?_, hB⟩
-        by_cases e : B = A
-        · subst e; simp at hB; subst hB; simp
-        · simp
+      refine ⟨some (a, vb), rfl, .inl rfl, ?_⟩
+      intro a' b' h; cases h
+      refine ⟨rfl, ?_, hB⟩
+      by_cases e : B = A
+      · subst e; simp at hB; subst hB; simp
+      · simp
     · next hB =>
       refine ⟨some (a, b), rfl, .inl rfl, ?_⟩
       intro a' b' h; cases h
@@ -238,7 +213,9 @@ theorem Inv.pairCall {cfg : Cfg} {s : State} (hi : Inv cfg s) (t r A B a b)
 /-! ### the transition -/
 
 theorem Inv.step {cfg : Cfg} (hf : cfg.fixed = true) {s s' : State} {t : Tid} {a : Act}
-    (hg : PairOnDirect cfg (t, a)) (hi : Inv cfg s) (h : step cfg s t a = some s') : Inv cfg s' := by
+    (hg : PairOnDirect cfg (t, a)) (hi : Inv cfg s)
+    (hdo : ∀ p, (s.pend p).done = true → (s.pend p).out ≠ none)
+    (h : step cfg s t a = some s') : Inv cfg s' := by
   have hstk := hi.stacks t
   unfold CONC.step at h
   cases a with
@@ -274,9 +251,7 @@ theorem Inv.step {cfg : Cfg} (hf : cfg.fixed = true) {s s' : State} {t : Tid} {a
         cases hc : s.cache (r, tp) with
         | some v =>
           simp only
-          split
-          · exact hi.crash t _ (EvOK.exc_of justified_panic)
-          · exact hi.ret t _ _ _ hstk tp (.ref r) (DecOn.of_not_exRun hne _ _) (justified_self hc)
+          exact hi.ret t _ _ _ hstk tp (.ref r) (DecOn.of_not_exRun hne _ _) (justified_self hc)
               (EvOK.exc_of (justified_self hc))
         | none =>
           simp only
@@ -468,20 +443,19 @@ theorem Inv.step {cfg : Cfg} (hf : cfg.fixed = true) {s s' : State} {t : Tid} {a
       obtain ⟨⟨hp, hkey⟩, hab, hrest⟩ := hstk
       have hne := hab.not_exRun (by intros; simp) (by intros; simp)
       split at h
-      · split at h
+      · next hdone =>
+        split at h
         · next v hout =>
           have hj : Justified cfg s.cache (.ref k.1) k.2 (.ok v) := by
             have := hi.pend p _ hout
             rw [hkey] at this
             exact this
-          split at h
-          · cases h; exact hi.crash t _ (EvOK.exc_of justified_panic)
-          · cases h
-            exact hi.ret t rest _ _ hrest k.2 (.ref k.1) (DecOn.of_not_exRun hne _ _) hj (EvOK.exc_of hj)
+          cases h
+          exact hi.ret t rest _ _ hrest k.2 (.ref k.1) (DecOn.of_not_exRun hne _ _) hj (EvOK.exc_of hj)
         · cases h
           exact hi.ret t rest _ _ hrest k.2 (.ref k.1) (DecOn.of_not_exRun hne _ _) justified_err (EvOK.exc_of justified_err)
         · cases h
-        · cases h; exact hi.crash t _ (EvOK.exc_of justified_panic)
+        · next hout => exact absurd hout (hdo p hdone)
       · cases h
     · cases h
 
